@@ -64,6 +64,9 @@ func genC16(c *Ctx) {
 		ns = []int{1, 2, 3, 4, 5, 6, 7, 8}
 	}
 	for si, set := range c14Sets() {
+		if set.params.RingType() != ring.Standard {
+			continue // the conjugate-invariant sets are exercised by C14
+		}
 		for ni, n := range ns {
 			for lvl := 0; lvl <= set.maxQ(); lvl++ {
 				if !c.Thorough() && (lvl+ni+si)%2 == 1 {
@@ -111,6 +114,49 @@ func c16SampleSigned(params rlwe.Parameters, s ring.Sampler, lvl int, full bool)
 	return c14Signed(r, e, false, false)
 }
 
+// c16Term is one product a·s of a public polynomial with a party's secret key.
+type c16Term struct {
+	a    ring.Poly
+	sk   *rlwe.SecretKey
+	sign int // +1: the share contains +a·s, -1: the share contains -a·s
+}
+
+// c16Residual extracts the noise actually contained in a share of the REAL protocol:
+//
+//	share − Σ sign_k·a_k·s_k − Σ plus_j + Σ minus_j      (centred coefficients, level lvl)
+//
+// a_k and share are in the NTT domain iff ntt; plus/minus are given in the NTT domain.
+func c16Residual(params rlwe.Parameters, lvl int, ntt bool, share ring.Poly, terms []c16Term, plus, minus []ring.Poly) []int {
+	r := params.RingQ().AtLevel(lvl)
+	cut := func(p ring.Poly) ring.Poly { return ring.Poly{Coeffs: p.Coeffs[:lvl+1]} }
+	x := r.NewPoly()
+	x.CopyLvl(lvl, cut(share))
+	if !ntt {
+		r.NTT(x, x)
+	}
+	tmp := r.NewPoly()
+	for _, t := range terms {
+		a := r.NewPoly()
+		a.CopyLvl(lvl, cut(t.a))
+		if !ntt {
+			r.NTT(a, a)
+		}
+		r.MulCoeffsMontgomery(a, cut(t.sk.Value.Q), tmp)
+		if t.sign > 0 {
+			r.Sub(x, tmp, x)
+		} else {
+			r.Add(x, tmp, x)
+		}
+	}
+	for _, p := range plus {
+		r.Sub(x, cut(p), x)
+	}
+	for _, p := range minus {
+		r.Add(x, cut(p), x)
+	}
+	return c14Signed(r, x, true, false)
+}
+
 func c16Bound(d ring.DiscreteGaussian) int64 { return int64(math.Ceil(d.Bound)) + 1 }
 
 // ---------------------------------------------------------------------------------------------
@@ -132,6 +178,7 @@ func c16CKS(c *Ctx, set c14Set, n, ctLvl, shareLvl int, ntt bool, sigma float64)
 
 	protos := make([]multiparty.KeySwitchProtocol, n)
 	twins := make([]ring.Sampler, n)
+	copied := make([]bool, n)
 	for i := range protos {
 		mark := RandMark()
 		if i == 0 || c.rng.Intn(2) == 0 {
@@ -140,7 +187,8 @@ func c16CKS(c *Ctx, set c14Set, n, ctLvl, shareLvl int, ntt bool, sigma float64)
 				panic(err)
 			}
 		} else {
-			protos[i] = protos[0].ShallowCopy()
+			protos[i] = protos[c.rng.Intn(i)].ShallowCopy()
+			copied[i] = true
 		}
 		twins[i], _ = c14Twin(set, mark, noise)
 	}
@@ -152,7 +200,9 @@ func c16CKS(c *Ctx, set c14Set, n, ctLvl, shareLvl int, ntt bool, sigma float64)
 		shares[i] = protos[i].AllocateShare(shareLvl)
 		protos[i].GenShare(in.sk[i], out.sk[i], ct, &shares[i])
 		e := c16SampleSigned(params, twins[i], lvl, false)
-		c16Record(fmt.Sprintf("cks sigma=%g", sigma), e)
+		// the noise found in the real share (= e when the tie holds), pooled separately for ShallowCopy'd protocols
+		c16Record(fmt.Sprintf("cks copy=%t sigma=%g", copied[i], sigma),
+			c16Residual(params, lvl, ntt, shares[i].Value, []c16Term{{ct.Value[1], in.sk[i], 1}, {ct.Value[1], out.sk[i], -1}}, nil, nil))
 		if shares[i].Level() != lvl {
 			panic("c16: share level")
 		}
@@ -276,6 +326,7 @@ func c16PCKS(c *Ctx, set c14Set, n, ctLvl, shareLvl int, ntt bool, sigma float64
 	type twin struct{ noise, xe, xs ring.Sampler }
 	protos := make([]multiparty.PublicKeySwitchProtocol, n)
 	twins := make([]twin, n)
+	copied := make([]bool, n)
 	for i := range protos {
 		mark := RandMark()
 		if i == 0 || c.rng.Intn(2) == 0 {
@@ -284,7 +335,8 @@ func c16PCKS(c *Ctx, set c14Set, n, ctLvl, shareLvl int, ntt bool, sigma float64
 				panic(err)
 			}
 		} else {
-			protos[i] = protos[0].ShallowCopy()
+			protos[i] = protos[c.rng.Intn(i)].ShallowCopy()
+			copied[i] = true
 		}
 		// crypto/rand reads of the constructor: [0] noise PRNG; rlwe.NewEncryptor(params, nil) builds
 		// two encryptors (the first is discarded): the last read is the live encryptor's PRNG.
@@ -318,7 +370,9 @@ func c16PCKS(c *Ctx, set c14Set, n, ctLvl, shareLvl int, ntt bool, sigma float64
 		e0 := c16SampleSigned(params, twins[i].xe, shareLvl, false)
 		e1 := c16SampleSigned(params, twins[i].xe, shareLvl, false)
 		e := c16SampleSigned(params, twins[i].noise, lvl, true)
-		c16Record(fmt.Sprintf("pcks sigma=%g", sigma), e)
+		// phase(share, sk_out) − c1·s_i = smudging noise + the (small) noise of the encryption of zero
+		c16Record(fmt.Sprintf("pcks copy=%t sigma=%g", copied[i], sigma),
+			c16Residual(params, lvl, ntt, shares[i].Value[0], []c16Term{{shares[i].Value[1], skOut, -1}, {ct.Value[1], in.sk[i], 1}}, nil, nil))
 		rows[i] = Mat(c16QRows(params, shares[i].Value[0], shareLvl, ntt)) + "|" + Mat(c16QRows(params, shares[i].Value[1], shareLvl, ntt))
 		c.Emit(fmt.Sprintf("pcks_share %s %s %d %d %s %s %s %s %s %s %s %s", Vec(set.qs(shareLvl)), p0, set.n, lvl, pkRows(0), pkRows(1),
 			IVec(u), IVec(e0), IVec(e1), c1, IVec(in.s[i]), IVec(e)), rows[i])
